@@ -29,7 +29,7 @@ THEOREMS = ["C17_symbol_ranges_valid_partial", "C17_range_valid_meaning", "C17_r
             "C17_symbol_ranges_valid_core", "C17_ranges_come_from_ast_core", "C17_pipeline_core", "C17_pipeline_nonvacuous",
             "C17_pipeline_diagnostics"]
 # the tree part is stated about the grammar / kind tables regenerated from the current sources
-TRANSLATORS = ["t_tokens", "t_lextables", "t_unicode", "t_grammar", "t_grammarcert", "t_foldkinds", "t_ast", "t_symbolmap"]
+TRANSLATORS = ["t_tokens", "t_lextables", "t_unicode", "t_grammar", "t_grammarcert", "t_foldkinds", "t_ast", "t_symbolmap", "t_completion"]
 TRUSTED = [
     "Coq 8.16.1 kernel; vm_compute only in the closed Example",
     "PARTIAL: proved (a) for the ranges that go through the symbol map (op-level model, hypothesis ops_ranges_wf checked on real logs) and "
@@ -98,6 +98,8 @@ def run(ctx):
     bindir = vlib.build_harness(True, bins=["symdump"])
     fails = vlib.proof_step(ctx, "TG.Props.C17", THEOREMS, ["props/C17.vo"], TRUSTED, translators=TRANSLATORS)
     L.source_tie(ctx, fails)
+    # builder bridge: every range of every answer of the complete analysis (all nine queries) is valid
+    L.pipeline_all(ctx, fails)
     exe = vlib.build_model("symmap")
     wss, kinds = gen_inputs(ctx)
     res = L.evaluate(bindir, exe, wss)
